@@ -391,8 +391,19 @@ func (n NaturalLanguageValues) MarshalJSON() ([]byte, error) {
 	}
 	b.Write([]byte{'{'})
 	empty := true
-	for _, val := range n {
+	for i, val := range n {
 		if len(val.Ref) == 0 || len(val.Value) == 0 {
+			continue
+		}
+		// NOTE: an object must not repeat a member name: the first entry of a language wins, as it does for Get
+		repeated := false
+		for _, prev := range n[:i] {
+			if prev.Ref == val.Ref && len(prev.Value) > 0 {
+				repeated = true
+				break
+			}
+		}
+		if repeated {
 			continue
 		}
 		if !empty {
